@@ -37,6 +37,7 @@ type rewriter struct {
 	file                *ast.File
 	modes               map[string]bool
 	needSched, needVmap bool
+	timeName            string
 	tmp                 int
 	errs                []string
 	counts              map[string]int
@@ -53,6 +54,10 @@ func sel(pkg, name string) ast.Expr {
 func call(fn ast.Expr, args ...ast.Expr) *ast.CallExpr {
 	return &ast.CallExpr{Fun: fn, Args: args}
 }
+
+// the timer functions and types of package time that vtime models
+var vtimeNames = map[string]bool{"After": true, "AfterFunc": true, "NewTimer": true, "Timer": true, "Sleep": true,
+	"NewTicker": true, "Ticker": true, "Tick": true}
 
 func (r *rewriter) isChan(e ast.Expr) bool {
 	t := r.pkg.TypesInfo.TypeOf(e)
@@ -222,6 +227,16 @@ func (r *rewriter) post(c *astutil.Cursor) bool {
 		if r.modes["sched"] {
 			c.Replace(r.rewriteGo(n))
 		}
+	case *ast.SelectorExpr:
+		if r.modes["sched"] && vtimeNames[n.Sel.Name] {
+			if id, ok := n.X.(*ast.Ident); ok {
+				if pn, ok := r.pkg.TypesInfo.Uses[id].(*types.PkgName); ok && pn.Imported().Path() == "time" {
+					r.timeName = id.Name
+					r.counts["time"]++
+					c.Replace(sel("vtime", n.Sel.Name))
+				}
+			}
+		}
 	case *ast.SendStmt:
 		if r.modes["sched"] {
 			r.needSched = true
@@ -363,6 +378,12 @@ func (r *rewriter) imports() {
 	}
 	if r.needSched {
 		astutil.AddNamedImport(r.pkg.Fset, r.file, "sched", schedPath)
+	}
+	if r.timeName != "" {
+		astutil.AddNamedImport(r.pkg.Fset, r.file, "vtime", "verif/vtime")
+		// keep the import of package time used
+		r.file.Decls = append(r.file.Decls, &ast.GenDecl{Tok: token.VAR, Specs: []ast.Spec{&ast.ValueSpec{
+			Names: []*ast.Ident{ast.NewIdent("_")}, Type: sel(r.timeName, "Duration")}}})
 	}
 	if r.needVmap {
 		astutil.AddNamedImport(r.pkg.Fset, r.file, "vmap", vmapPath)
